@@ -2,7 +2,7 @@
    JSON body.  Only statements here; proofs live in Fed/XMatrixProofs.v and Fed/RequestProofs.v.
 
    The signature scheme is a premise (ideal_sig: complete, and a verifying signature is the
-   signature of exactly that message), never an axiom; C13Instance.v shows it satisfiable.
+   signature of exactly that message), never an axiom; ideal_sig_inhabited (Fed/C13Instance.v) shows it satisfiable.
    Three facts about canonical JSON enter as named premises, to be discharged from C01's
    theorems at integration:
      canon_inj    (canon_print_injective, specialised to the five-member signing object),
@@ -13,7 +13,7 @@
    (Request.deliver). *)
 From Verif Require Import Lib.Bytes Json.Ast Json.Parse Json.Print.
 From Verif Require Import Fed.Utf8C13 Fed.XMatrix Fed.XMatrixProofs Fed.ServerNameC13 Fed.MediaTypeC13
-     Fed.Base64C13 Fed.Request Fed.RequestProofs.
+     Fed.Base64C13 Fed.Base64C13Proofs Fed.C13Instance Fed.Request Fed.RequestProofs.
 Open Scope N_scope.
 
 (* the header HTTPRequest emits is read back by ParseAuthorization, field for field: for all
@@ -37,9 +37,9 @@ Section C13.
     sig_complete : forall k m, verify (pub k) m (sign k m) = true;
     sig_sound : forall p m s, verify p m s = true -> exists k, p = pub k /\ s = sign k m;
     sign_inj : forall k m k' m', sign k m = sign k' m' -> pub k = pub k' /\ m = m';
-    wire_ok : forall s, sig_unwire (sig_wire s) = Some s;
-    wire_nonempty : forall s, sig_wire s <> [];
-    wire_b64 : forall s, b64_decode (b64_encode (sig_wire s)) = Some (sig_wire s)
+    wire_ok : forall k m, sig_unwire (sig_wire (sign k m)) = Some (sign k m);
+    wire_nonempty : forall k m, sig_wire (sign k m) <> [];
+    wire_b64 : forall k m, b64_decode (b64_encode (sig_wire (sign k m))) = Some (sig_wire (sign k m))
   }.
   Variable IS : ideal_sig.
 
@@ -146,6 +146,20 @@ Section C13.
       refused rc now realnow q.
   Proof. intros. eapply expired_lemma; eauto. Qed.
 End C13.
+
+(* ---- non-vacuity: the ideal scheme has an instance (signature = self-delimiting code of key
+   and message, carried as real base64) ---- *)
+Example ideal_sig_inhabited :
+  ideal_sig (fun k : bytes => k) i_sign i_verify (fun s : bytes => s) (fun s => Some s).
+Proof.
+  constructor.
+  - intros k m. apply bytes_eqb_refl.
+  - intros p m s H. exists p. split; [reflexivity|]. apply bytes_eqb_eq in H. exact H.
+  - intros k m k' m' H. apply i_sign_inj in H. exact H.
+  - reflexivity.
+  - apply i_sign_nonempty.
+  - intros k m. apply b64_roundtrip, i_sign_small.
+Qed.
 
 (* ---- non-vacuity: a concrete request goes through the executable model (table instance of the
    signature scheme: the signature is the one the table records for that key and message) ---- *)
